@@ -565,6 +565,22 @@ func (g *group) write(dir, fname, def, fun string, withPct bool) {
 	Must(f.Close())
 }
 
+func groupRank(name string) int {
+	switch {
+	case strings.HasPrefix(name, "explicit-0"):
+		return 0
+	case name == "aggregates":
+		return 1
+	case name == "slice-removevalue", name == "positional", name == "flatten", name == "objects", name == "zip":
+		return 2
+	case strings.HasPrefix(name, "explicit"):
+		return 3
+	case name == "triples":
+		return 4
+	}
+	return 5
+}
+
 func hxs(ks []string) []string {
 	out := make([]string, len(ks))
 	for i, k := range ks {
@@ -682,6 +698,8 @@ func main() {
 		groups = append(groups, part)
 	}
 
+	// report order: explicit and small groups first, the large pair enumerations last
+	sort.SliceStable(groups, func(i, j int) bool { return groupRank(groups[i].name) < groupRank(groups[j].name) })
 	for i, g := range groups {
 		g.write(out, fmt.Sprintf("cases%02d.v", i), "M", "mismatches", true)
 		g.write(out, fmt.Sprintf("drift%02d.v", i), "D", "drift", false)
